@@ -67,12 +67,15 @@ func (c *Collection) Snapshot(dst io.Writer) error {
 	defer os.Remove(recorder.Name())
 	defer recorder.Close()
 	defer c.recorderClose()
+	verifYield("s:opened")
 	if _, err := c.writeState(s2.NewWriter(dst)); err != nil {
 		return err
 	}
 
 	// Close the recorder
+	verifYield("s:written")
 	c.recorderClose()
+	verifYield("s:closed")
 	return recorder.Copy(dst)
 }
 
@@ -133,6 +136,7 @@ func (c *Collection) writeState(dst io.Writer) (int64, error) {
 
 	// Write each chunk
 	if err := writer.WriteRange(chunks, func(i int, w *iostream.Writer) error {
+		verifYield("s:chunk")
 		return c.readChunk(commit.Chunk(i), func(lastCommit uint64, chunk commit.Chunk, fill bitmap.Bitmap) error {
 			offset := chunk.Min()
 
